@@ -242,6 +242,10 @@ def check_case(case) -> Outcome:
     elif kind == "value_not_in_ranking":
         col = ordi[pos % len(ordi)]
         X.iloc[i, X.columns.get_loc(col)] = "NOT_IN_RANKING"
+        # a feature without any value reaching min_freq is dropped before its values are looked at: the
+        # foreign value is then never used, accepting it is not a violation
+        if X[col].value_counts(normalize=True, dropna=False).drop(np.nan, errors="ignore").max() < cfg["min_freq"]:
+            return discard("ordinal-feature-dropped-for-low-frequency", out.labels)
     elif kind == "bad_sort_by":
         override["sort_by"] = ["foo", "kruskal", "chi2"][variant % 3] if cls != "ContinuousCarver" else ["cramerv", "tschuprowt"][variant % 2]
     elif kind == "ordinal_without_ranking":
